@@ -1263,7 +1263,8 @@ func (app *App) performSwitchover(clusterState map[string]*nodestate.NodeState, 
 	// set read only everywhere (all HA-nodes) and stop replication
 	app.logger.Info().Msg("switchover: phase 1: enter read only")
 	errs := util.RunParallel(func(host string) error {
-		if !clusterState[host].PingOk {
+		// the active list comes from the coordination service and may name a host that is not registered any more
+		if state, ok := clusterState[host]; !ok || !state.PingOk {
 			return fmt.Errorf("switchover: failed to ping host %s", host)
 		}
 		node := app.cluster.Get(host)
@@ -1318,7 +1319,7 @@ func (app *App) performSwitchover(clusterState map[string]*nodestate.NodeState, 
 	}
 
 	errs2 := util.RunParallel(func(host string) error {
-		if !clusterState[host].PingOk {
+		if state, ok := clusterState[host]; !ok || !state.PingOk {
 			errMessage := fmt.Sprintf("switchover: failed to ping host %s", host)
 			app.logger.Warn().Msg(errMessage)
 			return fmt.Errorf("%s", errMessage)
@@ -1398,6 +1399,9 @@ func (app *App) performSwitchover(clusterState map[string]*nodestate.NodeState, 
 	app.logger.Info().Msgf("switchover: newMaster is %s", newMaster)
 
 	newMasterNode := app.cluster.Get(newMaster)
+	if newMasterNode == nil {
+		return fmt.Errorf("switchover: new master %s is not a registered host", newMaster)
+	}
 
 	// catch up
 	app.logger.Info().Msg("switchover: phase 4: catch up if needed")
@@ -1444,7 +1448,7 @@ func (app *App) performSwitchover(clusterState map[string]*nodestate.NodeState, 
 		return fmt.Errorf("got error on setting new master %s online %w", newMaster, err)
 	}
 	errs = util.RunParallel(func(host string) error {
-		if host == newMaster || !clusterState[host].PingOk {
+		if state, ok := clusterState[host]; host == newMaster || !ok || !state.PingOk {
 			return nil
 		}
 		err := app.performChangeMaster(host, newMaster)
@@ -2373,6 +2377,9 @@ func (app *App) getNodePositions(activeNodes []string) ([]nodePosition, error) {
 	var positionsMutex sync.Mutex
 	errs := util.RunParallel(func(host string) error {
 		node := app.cluster.Get(host)
+		if node == nil {
+			return fmt.Errorf("host %s is not registered", host)
+		}
 		sstatus, err := node.GetReplicaStatus()
 		if err != nil || app.emulateError("freeze_slave_status") {
 			return fmt.Errorf("failed to get slave status on host %s: %w", host, err)
